@@ -35,8 +35,13 @@ def jobs(tier):
     J.append(Job(S, "reenqueue_free", "1,1,0,0", workers=8))
     J.append(Job(S, "reenqueue_free", "1,0,0,0", {"rt": 1}, workers=8))
     for cpu in (0, 1):
-        J.append(Job(S, "per_cpu_free_race", "1,0,0,0,1" if q else "1,0,0,0,2", {"cpu": cpu}, {"VRT_NCPUS": 2}, workers=8))
+        if not q or cpu == 1:
+            J.append(Job(S, "per_cpu_free_race", "1,0,0,0,1" if q else "1,0,0,0,2", {"cpu": cpu}, {"VRT_NCPUS": 2}, workers=8))
         J.append(Job(S, "per_cpu_free_race", "1,0,0,0,0", {"cpu": cpu, "yield_first": 0}, {"VRT_NCPUS": 2}, workers=8))
+    # the enqueuer enters call_rcu() while the teardown already waits for its grace period (kept open by a reader)
+    J.append(Job(S, "per_cpu_free_race", "1,0,0,0,1", {"cpu": 0, "hold": 1}, {"VRT_NCPUS": 1}, workers=8))
+    if not q:
+        J.append(Job(S, "per_cpu_free_race", "1,0,0,0,0", {"cpu": 1, "hold": 1}, {"VRT_NCPUS": 2}, workers=16))
     for cpu in (0, 1):
         J.append(Job(S, "per_cpu", "1,0,0,0,0" if q else "1,0,0,0,2", {"cpu": cpu, "migrate": cpu}, {"VRT_NCPUS": 2}, workers=8))
     J.append(Job(S, "reenqueue", "2,0,0,0" if q else "3,0,0,0", workers=8))
